@@ -16,7 +16,7 @@ def sh(cmd, cwd=wt, timeout=1800):
 subprocess.check_call(["git", "-C", "/repo", "worktree", "add", "-q", "--detach", wt, "HEAD"])
 out = {}
 try:
-    demo_src = [f for f in os.listdir(src) if f not in ("patch.diff", "meta.json")]
+    demo_src = sorted([f for f in os.listdir(src) if f not in ("patch.diff", "meta.json") and (f.endswith(".go") or os.path.isdir(os.path.join(src, f)))])
     place = meta["demo_place"].split()[0]
     dst = os.path.join(wt, place)
     os.makedirs(os.path.dirname(dst), exist_ok=True)
@@ -39,7 +39,7 @@ try:
         shutil.rmtree(dst)
     else:
         os.remove(dst)
-    rct, ot = sh("go test -vet=off -count=1 " + " ".join(pkgs or ["./..."]))
+    rct, ot = sh(os.environ.get("SEED_TESTCMD") or ("go test -vet=off -count=1 -timeout 60m " + " ".join(pkgs or ["./..."])))
     out["existing_tests_with_change"] = "pass" if rct == 0 else "FAIL"
     out["existing_tests_tail"] = ot[-600:]
     out["demo_fail_tail"] = o1[-800:]
